@@ -81,6 +81,21 @@ def gen_ops(tier, rng):
     return ops
 
 
+# contents that a source-level pass over the emitted JavaScript (the -m whitespace/comment stripper) would damage if it ever
+# lost track of where string literals begin and end: trailing / doubled backslashes, quotes, blank runs, comment markers
+MINIFY_SENSITIVE = [b"C:\\", b"\\", b"a\\", b"\\\\", b"x  y", b" ,  ; ", b"/* c */", b"a /* b */ c", b"// d", b"  ", b" = ", b"{ }", b"( )",
+                    b"\"", b"\\\"", b"\"\\", b"a\" + \"b", b"'", b"\t\t", b" \n ", b"if (x) { y }", b"return  1;", b"$a  $b",
+                    b"tail\\", b"  lead", b"a   b   c", b"/*", b"*/", b"\\n", b"`x  y`", b"q\\\"  z"]
+
+
+def minify_sensitive(rng, k):
+    """k strings: pairs (ends in backslash / quote) followed by (blank runs / comment markers), shuffled lightly"""
+    out = []
+    for _ in range(k):
+        out.append(list(rng.choice(MINIFY_SENSITIVE)))
+    return out
+
+
 def go_lit(bs):
     return '"' + "".join("\\x%02x" % b for b in bs) + '"'
 
@@ -230,6 +245,99 @@ func main() {
 """
 
 
+# --- constant operands: the compiler folds / special-cases operations on constant strings -----------------------------
+def go_lit_varied(rng, bs):
+    """the same byte string written with a mix of literal syntaxes (hex, octal, u/U escapes, raw UTF-8 text, simple escapes)"""
+    out, i = [], 0
+    bs = bytes(bs)
+    while i < len(bs):
+        ch = None
+        for n in (1, 2, 3, 4):
+            try:
+                t = bs[i:i + n].decode("utf-8")
+                if len(t) == 1:
+                    ch = (t, n)
+                    break
+            except UnicodeDecodeError:
+                continue
+        if ch and rng.random() < 0.6:
+            c, n = ch
+            cp = ord(c)
+            form = rng.choice(["u", "raw", "x"])
+            if form == "raw" and (0x20 <= cp < 0x7F and c not in '"\\' or cp >= 0xA0 and cp not in (0xFEFF,) and not (0xD800 <= cp <= 0xDFFF) and c.isprintable()):
+                out.append(c)
+                i += n
+                continue
+            if form == "u":
+                out.append("\\u%04x" % cp if cp < 0x10000 else "\\U%08x" % cp)
+                i += n
+                continue
+        b = bs[i]
+        simple = {7: "\\a", 8: "\\b", 12: "\\f", 10: "\\n", 13: "\\r", 9: "\\t", 11: "\\v", 92: "\\\\", 34: "\\\""}
+        if b in simple and rng.random() < 0.5:
+            out.append(simple[b])
+        elif rng.random() < 0.3:
+            out.append("\\%03o" % b)
+        else:
+            out.append("\\x%02x" % b)
+        i += 1
+    return '"' + "".join(out) + '"'
+
+
+def const_program(rng, nconst):
+    consts, seen = [], set()
+    pool = [[], [0x61], [0xFF], [0xC3, 0xA9], [0xE2, 0x82, 0xAC], [0xF0, 0x9F, 0x98, 0x80], [0xED, 0xA0, 0x80], [0xC0, 0x80], [0x00],
+            [0x22, 0x5C, 0x0A], [0x61, 0xCC, 0x81], [0xEF, 0xBF, 0xBD], [0xF4, 0x90, 0x80, 0x80], [0xE2, 0x82], [0x7F, 0x80]]
+    while len(consts) < nconst:
+        c = pool[len(consts)] if len(consts) < len(pool) and rng.random() < 0.7 else rand_string(rng, rng.choice([1, 2, 3, 5, 8]))
+        if rng.random() < 0.45:
+            c = list(rng.choice(MINIFY_SENSITIVE))
+        if tuple(c) in seen:
+            continue
+        seen.add(tuple(c))
+        consts.append(list(c))
+    L = ["package main\n", "func hash(h uint32, x int) uint32 { return (h * 16777619) ^ uint32(x) }\n",
+         "func dump(tag string, k int, s string) {\n\th := uint32(2166136261)\n\tfor i := 0; i < len(s); i++ {\n\t\th = hash(h, int(s[i]))\n\t}\n"
+         "\tprintln(tag, k, len(s), h)\n}\n", "const (\n"]
+    for k, c in enumerate(consts):
+        L.append("\tc%d = %s\n" % (k, go_lit_varied(rng, c)))
+    L.append(")\n\nvar (\n")
+    for k in range(len(consts)):
+        L.append("\tv%d = c%d\n" % (k, k))
+    L.append(")\n\nfunc which(s string) int {\n\tswitch s {\n")
+    for k in range(len(consts)):
+        L.append("\tcase c%d:\n\t\treturn %d\n" % (k, k))
+    L.append("\t}\n\treturn -1\n}\n\nvar keyed = map[string]int{")
+    L.append(", ".join("c%d: %d" % (k, k + 100) for k in range(len(consts))))
+    L.append("}\n\nfunc main() {\n\tbuf := make([]byte, 4)\n")
+    for k, c in enumerate(consts):
+        n = len(c)
+        L.append("\tprintln(\"len\", %d, len(c%d), len(v%d))\n\tdump(\"c\", %d, c%d)\n\tdump(\"v\", %d, v%d)\n" % (k, k, k, k, k, k, k))
+        idx = sorted({0, n - 1, rng.randrange(n)}) if n else []
+        for i in idx:
+            L.append("\tprintln(\"idx\", %d, %d, int(c%d[%d]), int(v%d[%d]))\n" % (k, i, k, i, k, i))
+        for _ in range(3):
+            a = rng.randrange(0, n + 1)
+            b = rng.randrange(a, n + 1)
+            L.append("\tdump(\"sl%d_%d\", %d, c%d[%d:%d])\n" % (a, b, k, k, a, b))
+        L.append("\tdump(\"slo\", %d, c%d[%d:])\n\tdump(\"slh\", %d, c%d[:%d])\n" % (k, k, rng.randrange(0, n + 1), k, k, rng.randrange(0, n + 1)))
+        L.append("\tfor i, r := range c%d {\n\t\tprintln(\"rg\", %d, i, r)\n\t}\n" % (k, k))
+        L.append("\tfor i := range c%d {\n\t\tprintln(\"ri\", %d, i)\n\t}\n" % (k, k))
+        L.append("\tdump(\"rs\", %d, string([]rune(c%d)))\n\tprintln(\"nr\", %d, len([]rune(c%d)), len([]byte(c%d)))\n" % (k, k, k, k, k))
+        L.append("\tdump(\"bs\", %d, string([]byte(c%d)))\n" % (k, k))
+        L.append("\tprintln(\"sw\", %d, which(v%d), which(c%d), keyed[v%d], keyed[c%d])\n" % (k, k, k, k, k))
+        L.append("\tprintln(\"cp\", %d, copy(buf, c%d), int(buf[0]), len(append([]byte(\"x\"), c%d...)))\n" % (k, k, k))
+        for j in rng.sample(range(len(consts)), 3):
+            L.append("\tprintln(\"cmp\", %d, %d, c%d == c%d, c%d < c%d, c%d >= c%d, v%d == c%d, c%d < v%d, c%d != v%d)\n"
+                     % (k, j, k, j, k, j, k, j, k, j, k, j, k, j))
+            L.append("\tdump(\"cat\", %d, c%d+c%d)\n\tdump(\"catv\", %d, c%d+v%d)\n" % (k, k, j, k, k, j))
+        L.append("\tprintln(\"empty\", %d, c%d == \"\", v%d == \"\", len(c%d) == 0, c%d != \"\")\n" % (k, k, k, k, k))
+    for r in sorted({b + d for b in RUNE_BOUNDS for d in (-1, 0, 1) if -2 ** 31 <= b + d < 2 ** 31} | {rng.randrange(0, 0x110000) for _ in range(8)}):
+        L.append("\tdump(\"rc\", %d, string(rune(%d)))\n" % (r % 1000003, r))
+    L.append("\tprintln(len(keyed))\n}\n")
+    return "".join(L)
+
+
 def program_tie(chk, tier):
     """Compiled table-driven string programs: GopherJS under Node (plain and minified) vs native Go."""
     from . import progs
@@ -242,10 +350,16 @@ def program_tie(chk, tier):
         for n in (1, 2, 3):
             for _ in range(12):
                 strs.append([chk.rng.choice(ALPHABET) for _ in range(n)])
+        ms = minify_sensitive(chk.rng, 24)
+        for x in ms:
+            strs.insert(chk.rng.randrange(3, len(strs) + 1), x)
         runes = sorted({b + d for b in RUNE_BOUNDS for d in (-1, 0, 1) if -2 ** 31 <= b + d < 2 ** 31} |
                        {chk.rng.randrange(0, 0x110000) for _ in range(30)})
         src = PROG_TMPL % {"strs": "\n".join("\t" + go_lit(x) + "," for x in strs), "runes": ", ".join(map(str, runes))}
         jobs.append({"id": "str%d" % k, "files": {"main.go": src}, "variants": ["plain", "minify"], "native": True, "timeout": 60})
+    for k in range(4 if tier == "thorough" else 1):
+        jobs.append({"id": "const%d" % k, "files": {"main.go": const_program(chk.rng, 18)}, "variants": ["plain", "minify"],
+                     "native": True, "timeout": 60})
     jobs.append({"id": "index", "files": {"main.go": INDEX_PROBE}, "variants": ["plain"], "native": True})
     res = progs.run_jobs(jobs, par=4)
     for j, r in zip(jobs, res):
@@ -258,7 +372,7 @@ def program_tie(chk, tier):
             for _ in range(ncases):
                 chk.evaluations += 1
             chk.distinct.add(("prog", j["id"], v, chk.seed).__repr__().encode()[:16])
-            chk.count("program:%s:%s" % (v, "index" if j["id"] == "index" else "table"))
+            chk.count("program:%s:%s" % (v, "index" if j["id"] == "index" else ("const" if j["id"].startswith("const") else "table")))
             if obs != nat:
                 # first differing line
                 d = next((i for i, (a, b) in enumerate(zip(obs[0], nat[0])) if a != b), min(len(obs[0]), len(nat[0])))
